@@ -471,6 +471,83 @@ theorem attrSpecialW_some (c : WCfg) (na : Option (List Attr)) (s : Bytes) (st s
        exact ⟨p, rfl⟩)
     | exact otaIconW_some _ _ _ _ h
 
+theorem b64DecodeE_textW_len (s d : Bytes) (h : Codec.b64DecodeE (b64TextW s) = .ok d) : d.length ≤ s.length := by
+  rw [b64TextW_eq, Wbxml.Lemmas.Codec.b64DecodeE_eq] at h
+  injection h with h
+  have h1 := b64DecodeLoop_length_le (Codec.b64Scan (s.filter (fun c => !Typed.isSpace c)))
+  have h2 : (Codec.b64Scan (s.filter (fun c => !Typed.isSpace c))).length ≤ (s.filter (fun c => !Typed.isSpace c)).length :=
+    (List.takeWhile_sublist _).length_le
+  have h3 := List.length_filter_le (fun c => !Typed.isSpace c) s
+  rw [← h]; omega
+
+theorem otaIconW_some' (na : Option (List Attr)) (s : Bytes) (st st2 : WSt)
+    (h : otaIconW na s st = .ok (some st2)) :
+    ∃ p, st2 = st.emit (serOpaque p) ∧ iconCtx na = true ∧ Codec.b64DecodeE (b64TextW s) = .ok p := by
+  unfold otaIconW at h
+  split at h
+  · rename_i t attrs _ _
+    split at h
+    · rename_i hany
+      obtain ⟨d, hd, rfl⟩ := bind_ok_some _ (fun d => st.emit (opaqueW d)) _ h
+      exact ⟨d, rfl, hany, hd⟩
+    · cases h
+  · cases h
+
+/-- What a typed attribute value is written as, and from what. -/
+def SpecialOut (c : WCfg) (na : Option (List Attr)) (s : Bytes) (cur : Option AttrRow) (p : Bytes) : Prop :=
+  p.length < 2 ^ 32 ∧ ∃ r, cur = some r ∧
+    ((dtRow c.lang.id r = true ∧ Typed.datetimePayload s = .ok p) ∨
+     (iconRow c.lang.id r = true ∧ iconCtx na = true ∧ Codec.b64DecodeE (b64TextW s) = .ok p))
+
+theorem attrSpecialW_some' (c : WCfg) (na : Option (List Attr)) (s : Bytes) (st st2 : WSt)
+    (hs : s.length < 2 ^ 32) (h : attrSpecialW c na s st = .ok (some st2)) :
+    ∃ p, st2 = st.emit (serOpaque p) ∧ SpecialOut c na s st.curAttr p := by
+  unfold attrSpecialW at h
+  cases hca : st.curAttr with
+  | none =>
+    rw [hca] at h; simp only at h
+    split at h
+    · cases h
+    · split at h
+      · cases h
+      · split at h <;> cases h
+  | some a =>
+    rw [hca] at h
+    simp only at h
+    by_cases h1 : (c.lang.id == 1301) = true
+    · simp only [h1, ↓reduceIte] at h
+      by_cases hc : (a.page == 0 && (a.token == 0x0a || a.token == 0x10)) = true
+      · simp only [hc, ↓reduceIte] at h
+        obtain ⟨item, hi, rfl⟩ := bind_ok_some _ (fun item => st.emit item) _ h
+        obtain ⟨p, rfl, hp, hlen⟩ := encodeDatetime_shape' s item hs hi
+        refine ⟨p, rfl, hlen, a, rfl, Or.inl ⟨?_, hp⟩⟩
+        simp only [Bool.and_eq_true] at hc
+        simp only [dtRow, h1, hc.1, hc.2, Bool.and_self, Bool.true_or]
+      · simp only [hc, Bool.false_eq_true, ↓reduceIte] at h; cases h
+    · simp only [h1, Bool.false_eq_true, ↓reduceIte] at h
+      by_cases h2 : (c.lang.id == 1701) = true
+      · simp only [h2, ↓reduceIte] at h
+        by_cases hc : (a.page == 0 && a.token == 0x05) = true
+        · simp only [hc, ↓reduceIte] at h
+          obtain ⟨item, hi, rfl⟩ := bind_ok_some _ (fun item => st.emit item) _ h
+          obtain ⟨p, rfl, hp, hlen⟩ := encodeDatetime_shape' s item hs hi
+          refine ⟨p, rfl, hlen, a, rfl, Or.inl ⟨?_, hp⟩⟩
+          simp only [Bool.and_eq_true] at hc
+          simp only [dtRow, h2, hc.1, hc.2, Bool.and_self, Bool.or_true]
+        · simp only [hc, Bool.false_eq_true, ↓reduceIte] at h; cases h
+      · simp only [h2, Bool.false_eq_true, ↓reduceIte] at h
+        by_cases h3 : (c.lang.id == 1901) = true
+        · simp only [h3, ↓reduceIte] at h
+          by_cases hc : (a.page == 0 && a.token == 0x11) = true
+          · simp only [hc, ↓reduceIte] at h
+            obtain ⟨p, rfl, hctx, hd⟩ := otaIconW_some' na s st st2 h
+            have := b64DecodeE_textW_len s p hd
+            refine ⟨p, rfl, by omega, a, rfl, Or.inr ⟨?_, hctx, hd⟩⟩
+            simp only [Bool.and_eq_true] at hc
+            simp only [iconRow, h3, hc.1, hc.2, Bool.and_self]
+          · simp only [hc, Bool.false_eq_true, ↓reduceIte] at h; cases h
+        · simp only [h3, Bool.false_eq_true, ↓reduceIte] at h; cases h
+
 theorem attrSpecialW_dt (c : WCfg) (na : Option (List Attr)) (s : Bytes) (st : WSt) (r : AttrRow)
     (hc : st.curAttr = some r) (hd : dtRow c.lang.id r = true) : attrSpecialW c na s st ≠ .ok none := by
   intro h
@@ -496,7 +573,7 @@ theorem attrSpecialW_untyped (c : WCfg) (na : Option (List Attr)) (s : Bytes) (s
   rfl
 
 /-- What the value part of an attribute is written as. -/
-structure AValsRes (c : WCfg) (s : Bytes) (st st' : WSt) (vals : List AVal) : Prop where
+structure AValsRes (c : WCfg) (na : Option (List Attr)) (s : Bytes) (st st' : WSt) (vals : List AVal) : Prop where
   out : st'.out = st.out ++ serAVals vals
   ap : ∀ ctx, st'.attrPage = (avalsText ctx st.attrPage vals).2
   tp : st'.tagPage = st.tagPage
@@ -511,21 +588,25 @@ structure AValsRes (c : WCfg) (s : Bytes) (st st' : WSt) (vals : List AVal) : Pr
     Resolves ctx.tbl st.strtbl → opqsAVals vals = [] → (avalsText ctx st.attrPage vals).1 = s
   /-- no typed attribute values in an untyped language -/
   noopq : noTypedAttr c.lang.id = true → opqsAVals vals = []
+  /-- the only OPAQUE ever written is the single typed one -/
+  typed : opqsAVals vals = [] ∨ ∃ p, vals = [.opaque p] ∧ s ≠ [] ∧ SpecialOut c na s st.curAttr p
 
-theorem AValsRes.nil (c : WCfg) (st : WSt) : AValsRes c [] st st [] :=
+theorem AValsRes.nil (c : WCfg) (na : Option (List Attr)) (st : WSt) : AValsRes c na [] st st [] :=
   ⟨by simp [serAVals], fun _ => rfl, rfl, rfl, rfl, (by intro o h; cases h), fun _ _ _ _ => rfl, fun _ _ _ => Or.inl rfl,
-    fun _ _ _ _ _ _ => rfl, fun _ => rfl⟩
+    fun _ _ _ _ _ _ => rfl, fun _ => rfl, Or.inl rfl⟩
 
 theorem encAttrValueW_spec (c : WCfg) (na : Option (List Attr)) (s : Bytes) (st st' : WSt)
     (hs : nulFree s = true) (hlen : s.length < 2 ^ 32) (h : encAttrValueW c na s st = .ok st') :
-    ∃ vals, AValsRes c s st st' vals := by
+    ∃ vals, AValsRes c na s st st' vals := by
   unfold encAttrValueW at h
   split at h
   · rename_i he
     have hse : s = [] := List.isEmpty_iff.mp he
     subst hse
-    injection h with h; subst h; exact ⟨[], AValsRes.nil c st⟩
-  · cases hsp : attrSpecialW c na s st with
+    injection h with h; subst h; exact ⟨[], AValsRes.nil c na st⟩
+  · rename_i hne
+    have hsne : s ≠ [] := fun e => hne (by rw [e]; rfl)
+    cases hsp : attrSpecialW c na s st with
     | error e => rw [hsp] at h; cases h
     | ok r =>
       rw [hsp] at h
@@ -533,8 +614,9 @@ theorem encAttrValueW_spec (c : WCfg) (na : Option (List Attr)) (s : Bytes) (st 
       | some st2 =>
         have h' : (Except.ok st2 : Except Err WSt) = .ok st' := h
         injection h' with h'; subst h'
-        obtain ⟨p, rfl⟩ := attrSpecialW_some c na s st st2 hlen hsp
-        refine ⟨[.opaque p], ?_, fun _ => rfl, rfl, rfl, rfl, (by intro o ho; cases ho), ?_, ?_, ?_, ?_⟩
+        obtain ⟨p, rfl, hout⟩ := attrSpecialW_some' c na s st st2 hlen hsp
+        refine ⟨[.opaque p], ?_, fun _ => rfl, rfl, rfl, rfl, (by intro o ho; cases ho), ?_, ?_, ?_, ?_,
+          Or.inr ⟨p, rfl, hsne, hout⟩⟩
         · simp [serAVals, serAVal]
         · intro ctx _ _ hno; cases hno
         · intro r _ _; exact Or.inr (by simp [opqsAVals, opqsAVal])
@@ -546,11 +628,12 @@ theorem encAttrValueW_spec (c : WCfg) (na : Option (List Attr)) (s : Bytes) (st 
         -- the generic path: value tokens, then string-table references
         have key : ∀ l2 : List VElt, (∀ e ∈ l2, VOk c st.strtbl e) → (∀ e ∈ l2, notExt e) →
             (∀ tb, Resolves tb st.strtbl → l2.flatMap (vval tb) = s) →
-            AValsRes c s st (emitVElts st l2) (avalsOf st.attrPage l2).1 := by
+            AValsRes c na s st (emitVElts st l2) (avalsOf st.attrPage l2).1 := by
           intro l2 hv hne hcat
           have he := emitVElts_attr l2 hne st
           have hf := emitVElts_frame l2 st
-          refine ⟨he.1, ?_, hf.1, hf.2.1, hf.2.2, avalsOf_refs c st.strtbl l2 hv _, ?_, ?_, ?_, fun _ => avalsOf_opqs l2 _⟩
+          refine ⟨he.1, ?_, hf.1, hf.2.1, hf.2.2, avalsOf_refs c st.strtbl l2 hv _, ?_, ?_, ?_, fun _ => avalsOf_opqs l2 _,
+            Or.inl (avalsOf_opqs l2 _)⟩
           · intro ctx; rw [he.2, avalsOf_page]
           · intro ctx hc hl _; exact avalsOf_wf c st.strtbl ctx hc hl l2 hv hne _
           · intro r h1 h2; exact absurd (hdt r h1 h2) id
@@ -564,7 +647,7 @@ theorem encAttrValueW_spec (c : WCfg) (na : Option (List Attr)) (s : Bytes) (st 
         have pass2 : ∀ l1 : List VElt, (∀ e ∈ l1, VOk c st.strtbl e ∧ notExt e) →
             (∀ tb, Resolves tb st.strtbl → l1.flatMap (vval tb) = s) →
             (do let l ← (if c.useStrtbl = true then splitByStrtbl st.strtbl l1 else pure l1)
-                pure (emitVElts st l) : Except Err WSt) = .ok st' → ∃ vals, AValsRes c s st st' vals := by
+                pure (emitVElts st l) : Except Err WSt) = .ok st' → ∃ vals, AValsRes c na s st st' vals := by
           intro l1 hl1ok hcat1 h
           cases hu : c.useStrtbl with
           | false =>
@@ -700,6 +783,100 @@ theorem attrValueText_ok (c : WCfg) (tbl) (ap : Nat) (nm) (as : AStart) (cur) (h
     · simp only [Bool.not_eq_true] at hd
       simp [hd]
 
+/-! ### Typed attribute values are well-formed under the source hypotheses -/
+
+theorem dtRow_not_ota (id : Nat) (r : AttrRow) (h : dtRow id r = true) : (id == 1901) = false := by
+  simp only [dtRow, Bool.or_eq_true, Bool.and_eq_true, beq_iff_eq] at h
+  rcases h with ⟨⟨h, _⟩, _⟩ | ⟨⟨h, _⟩, _⟩ <;> simp [h]
+
+theorem iconRow_not_dt (id : Nat) (r r' : AttrRow) (h : iconRow id r = true) : dtRow id r' = false := by
+  simp only [iconRow, Bool.and_eq_true, beq_iff_eq] at h
+  simp [dtRow, h.1.1]
+
+theorem dtRow_congr (id : Nat) (r r' : AttrRow) (ht : r'.token = r.token) (hp : r'.page = r.page) :
+    dtRow id r' = dtRow id r := by simp only [dtRow, ht, hp]
+
+theorem typedLangOk_icon {l : Lang} (h : typedLangOk l = true) {t} (ht : l.attrs = some t) {r} (hr : r ∈ t)
+    (hi : iconRow l.id r = true) : r.value.getD [] = [] := by
+  simp only [typedLangOk, ht, Option.getD_some, Bool.and_eq_true, List.all_eq_true] at h
+  have := h.2 r hr
+  simpa [hi] using this
+
+theorem typedLangOk_binary {l : Lang} (h : typedLangOk l = true) {t} (ht : l.tags = some t) {r} (hr : r ∈ t)
+    (hb : isBinaryTag (some r) = true) : typedRow l.id r = false := by
+  simp only [typedLangOk, ht, Option.getD_some, Bool.and_eq_true, List.all_eq_true] at h
+  have := h.1 r hr
+  simp only [isBinaryTag, bne_iff_ne, ne_eq] at hb
+  simp only [Bool.or_eq_true, beq_iff_eq, Bool.not_eq_true'] at this
+  rcases this with h0 | h0
+  · exact absurd h0 hb
+  · exact h0
+
+theorem wfAttr_typed (c : WCfg) (na : Option (List Attr)) (ctx : Ctx) (tbl) (hc : Compat c tbl ctx)
+    (hl : langOk c.lang = true) (htl : typedLangOk c.lang = true) (ap : Nat) (attrs : List AttrRow)
+    (ha : c.lang.attrs = some attrs) (r : AttrRow) (hr : r ∈ attrs) (s p : Bytes)
+    (hout : SpecialOut c na s (some r) p)
+    (hdt : dtAttrName c.lang r.name = true → validDatetimeText (r.value.getD [] ++ s) = true)
+    (hic : iconCtx na = true → iconValName c.lang r.name = true →
+      b64NonEmpty (r.value.getD [] ++ s) = true) :
+    wfAttr ctx ap ⟨.tok (swFor ap r.page) r.token, [.opaque p]⟩ = true := by
+  obtain ⟨hlen, r0, hr0, hcase⟩ := hout
+  injection hr0 with hr0; subst hr0
+  have hrange := attrRange r (langOk_attrs hl ha hr).1
+  obtain ⟨r', hf, hm, ht, hp⟩ := attrRow_found c tbl ctx hc attrs ha r hr hrange.2 ap
+  have hstart : wfAStart ctx ap (.tok (swFor ap r.page) r.token) = true :=
+    astartOk_wf c tbl ap r.name _ _ (.tok attrs r ha hr rfl) ctx hc hl
+  have hlen' : p.length < 4294967296 := hlen
+  simp only [wfAttr, wfPi, Bool.and_eq_true]
+  rcases hcase with ⟨hd, hpay⟩ | ⟨hi, hctx, hdec⟩
+  · -- `%Datetime`
+    have hno : (ctx.lang.id == 1901) = false := by rw [hc.lang]; exact dtRow_not_ota _ _ hd
+    have hoa : opaqueAttrText ctx p = some p := by
+      simp only [opaqueAttrText, decodeOpaqueAttrValue, hno, Bool.false_eq_true, ↓reduceIte]
+    have hd' : dtRow c.lang.id r' = true := by rw [dtRow_congr _ r r' ht hp]; exact hd
+    have hpre' := (langOk_attrs hl ha hm).2 hd'
+    have hpre := (langOk_attrs hl ha hr).2 hd
+    have hname : dtAttrName c.lang r.name = true := by
+      simp only [dtAttrName, ha, Option.getD_some, List.any_eq_true, Bool.and_eq_true, beq_iff_eq]
+      exact ⟨r, hr, hd, rfl⟩
+    have hv := hdt hname
+    rw [hpre, List.nil_append] at hv
+    simp only [validDatetimeText, hpay, Bool.or_eq_true, Bool.and_eq_true, decide_eq_true_eq, List.isEmpty_iff] at hv
+    refine ⟨⟨hstart, ?_⟩, ?_⟩
+    · simp only [wfAVals, wfAVal, hoa, Option.isSome_some, Bool.and_true, decide_eq_true_eq]
+      exact hlen'
+    · have hisdt : isDatetimeAttr ctx (.token r') = true := by
+        show dtRow ctx.lang.id r' = true
+        rw [hc.lang]; exact hd'
+      simp only [astartName, hf, avalsText, avalText, hoa, Option.getD_some, hpre', List.nil_append, List.append_nil,
+        attrValueText, hisdt, Bool.and_true]
+      rcases hv with hv | hv
+      · subst hv; rfl
+      · obtain ⟨b, hb⟩ := decodeDatetime_len p hv.1 hv.2
+        simp only [hb]
+        split <;> rfl
+  · -- OTA icon
+    have hid : c.lang.id = 1901 := by
+      simp only [iconRow, Bool.and_eq_true, beq_iff_eq] at hi; exact hi.1.1
+    have hpre := typedLangOk_icon htl ha hr hi
+    have hname : iconValName c.lang r.name = true := by
+      simp only [iconValName, ha, Option.getD_some, List.any_eq_true, Bool.and_eq_true, beq_iff_eq]
+      exact ⟨r, hr, hi, rfl⟩
+    have hv := hic hctx hname
+    rw [hpre, List.nil_append] at hv
+    simp only [b64NonEmpty, hdec, Bool.not_eq_true', List.isEmpty_eq_false_iff] at hv
+    have hb := decodeBase64Value_spec p hv
+    have hoa : opaqueAttrText ctx p = some (Rfc4648.encode p) := by
+      simp only [opaqueAttrText, decodeOpaqueAttrValue, hc.lang, hid, beq_self_eq_true, ↓reduceIte, hb]
+    refine ⟨⟨hstart, ?_⟩, ?_⟩
+    · simp only [wfAVals, wfAVal, hoa, Option.isSome_some, Bool.and_true, decide_eq_true_eq]
+      exact hlen'
+    · have hisdt : isDatetimeAttr ctx (.token r') = false := by
+        show dtRow ctx.lang.id r' = false
+        rw [hc.lang]; exact iconRow_not_dt _ r r' hi
+      simp only [astartName, hf, attrValueText, hisdt, Bool.and_false, Bool.false_eq_true, ↓reduceIte,
+        Option.isSome_some]
+
 /-- The first row with an attribute start's page and token carries the same value prefix. -/
 def attrSemOk (l : Lang) : Bool :=
   match l.attrs with
@@ -791,7 +968,7 @@ theorem attrOver_nulFree (c : WCfg) (a : Attr) (attrs : List AttrRow) (hattrs : 
     exact (han r ha.2).1
 
 /-- What one attribute is written as; `nm` / `v` are the source name and value (C strings). -/
-structure AttrRes (c : WCfg) (nm v : Bytes) (st st' : WSt) (a : Attribute) : Prop where
+structure AttrRes (c : WCfg) (na : Option (List Attr)) (nm v : Bytes) (st st' : WSt) (a : Attribute) : Prop where
   out : st'.out = st.out ++ serAttr a
   ap : ∀ ctx, st'.attrPage = (evAttr ctx st.attrPage a).2
   tp : st'.tagPage = st.tagPage
@@ -808,10 +985,15 @@ structure AttrRes (c : WCfg) (nm v : Bytes) (st st' : WSt) (a : Attribute) : Pro
   /-- what a reader reports for the attribute is the source attribute -/
   view : ∀ ctx : Ctx, Rd c st'.strtbl ctx → nulFree nm = true →
     attrView (evAttr ctx st.attrPage a).1 = (nm, withNul v)
+  /-- typed values included, under the source hypotheses (`dtAttrOk`, `iconAttrOk`) -/
+  wfT : ∀ ctx, Compat c st'.strtbl ctx → langOk c.lang = true → typedLangOk c.lang = true →
+    (dtAttrName c.lang nm = true → validDatetimeText v = true) →
+    (iconCtx na = true → iconValName c.lang nm = true → v.isEmpty = true ∨ b64NonEmpty v = true) →
+    wfAttr ctx st.attrPage a = true
 
 theorem encAttrW_spec (c : WCfg) (na : Option (List Attr)) (a : Attr) (st st' : WSt)
     (ha : attrOver c.lang a = true) (attrs : List AttrRow) (hattrs : c.lang.attrs = some attrs)
-    (h : encAttrW c na a st = .ok st') : ∃ sa, AttrRes c a.name.cName (cstrOf a.value) st st' sa := by
+    (h : encAttrW c na a st = .ok st') : ∃ sa, AttrRes c na a.name.cName (cstrOf a.value) st st' sa := by
   unfold encAttrW at h
   rw [hattrs] at h
   simp only at h
@@ -828,12 +1010,12 @@ theorem encAttrW_spec (c : WCfg) (na : Option (List Attr)) (a : Attr) (st st' : 
     -- the value part
     have hpre := attrStartW_prefix c a (cstrOf a.value) st st1 rest
       (by unfold cstrOf; rw [List.length_take]; omega) hs
-    have hval : ∃ st2 vals, st' = { st2 with curAttr := none } ∧ AValsRes c (rest.getD []) st1 st2 vals := by
+    have hval : ∃ st2 vals, st' = { st2 with curAttr := none } ∧ AValsRes c na (rest.getD []) st1 st2 vals := by
       cases rest with
       | none =>
         have h' : (Except.ok { st1 with curAttr := none } : Except Err WSt) = .ok st' := h
         injection h' with h'
-        exact ⟨st1, [], h'.symm, AValsRes.nil c st1⟩
+        exact ⟨st1, [], h'.symm, AValsRes.nil c na st1⟩
       | some s =>
         cases hv : encAttrValueW c na s st1 with
         | error e =>
@@ -860,7 +1042,22 @@ theorem encAttrW_spec (c : WCfg) (na : Option (List Attr)) (a : Attr) (st st' : 
         intro e he; exact hrs e (by rw [this]; exact he)
       rw [astartName_pre c _ _ _ _ _ hres.ok ctx hlang hl has, ← hres.ap ctx, hvr.text ctx hlang hl hvs hres1 hno]
       exact hpre.symm
-    refine ⟨⟨as, vals⟩, ?_, ?_, ?_, ?_, ?_, ?_, ?_, fun hu => hvr.noopq hu, ?_⟩
+    have hwf0 : ∀ ctx, Compat c st2.strtbl ctx → langOk c.lang = true → opqsAttr ⟨as, vals⟩ = [] →
+        wfAttr ctx st.attrPage ⟨as, vals⟩ = true := by
+      intro ctx hc hl hno
+      have hc1 : Compat c st1.strtbl ctx := by
+        have : st2.strtbl = st1.strtbl := hvr.tbl
+        exact ⟨hc.lang, hc.cs, fun e he => hc.offs e (by show e ∈ st2.strtbl; rw [this]; exact he)⟩
+      simp only [opqsAttr] at hno
+      simp only [wfAttr, wfPi, Bool.and_eq_true]
+      refine ⟨⟨astartOk_wf c _ _ _ _ _ hres.ok ctx hc1 hl, ?_⟩, ?_⟩
+      · rw [← hres.ap ctx]; exact hvr.wf ctx hc1 hl hno
+      · apply attrValueText_ok c _ _ _ _ _ hres.ok ctx hc1 hl vals
+        intro r hr hd
+        rcases hvr.dt r hr hd with h | h
+        · exact h
+        · exact absurd hno h
+    refine ⟨⟨as, vals⟩, ?_, ?_, ?_, ?_, ?_, hwf0, ?_, fun hu => hvr.noopq hu, ?_, ?_⟩
     · show st2.out = _
       rw [hvr.out, hres.out, serAttr, List.append_assoc]
     · intro ctx
@@ -876,19 +1073,6 @@ theorem encAttrW_spec (c : WCfg) (na : Option (List Attr)) (a : Attr) (st st' : 
       rcases ho with ho | ho
       · exact astartOk_refs c _ _ _ _ _ hres.ok off ho
       · exact hvr.refs off ho
-    · intro ctx hc hl hno
-      have hc1 : Compat c st1.strtbl ctx := by
-        have : st2.strtbl = st1.strtbl := hvr.tbl
-        exact ⟨hc.lang, hc.cs, fun e he => hc.offs e (by show e ∈ st2.strtbl; rw [this]; exact he)⟩
-      simp only [opqsAttr] at hno
-      simp only [wfAttr, wfPi, Bool.and_eq_true]
-      refine ⟨⟨astartOk_wf c _ _ _ _ _ hres.ok ctx hc1 hl, ?_⟩, ?_⟩
-      · rw [← hres.ap ctx]; exact hvr.wf ctx hc1 hl hno
-      · apply attrValueText_ok c _ _ _ _ _ hres.ok ctx hc1 hl vals
-        intro r hr hd
-        rcases hvr.dt r hr hd with h | h
-        · exact h
-        · exact absurd hno h
     · intro ctx hlang hl hvs has hrs hno
       exact hvalue ctx hlang hl hvs has hrs hno
     · intro ctx hr hnf
@@ -900,11 +1084,33 @@ theorem encAttrW_spec (c : WCfg) (na : Option (List Attr)) (a : Attr) (st st' : 
       have hraw := hvalue ctx hr2.lang hr2.ok hr2.vs hr2.as hr2.res (hvr.noopq hr2.nta)
       simp only [attrView, evAttr, attrValueText_plain ctx hnta, Option.getD_some, hraw,
         astartOk_name c _ _ _ _ _ hres.ok ctx hr1 hnf]
+    · intro ctx hc hl htl hdt hic
+      rcases hvr.typed with hno | ⟨p, hvals, hsne, hout⟩
+      · exact hwf0 ctx hc hl (by simp only [opqsAttr]; exact hno)
+      · have hc1 : Compat c st1.strtbl ctx := by
+          have : st2.strtbl = st1.strtbl := hvr.tbl
+          exact ⟨hc.lang, hc.cs, fun e he => hc.offs e (by show e ∈ st2.strtbl; rw [this]; exact he)⟩
+        obtain ⟨_, r, hcur, _⟩ := id hout
+        have hok := hres.ok
+        rw [hcur] at hok hout hpre
+        subst hvals
+        cases hok with
+        | tok attrs' _ ha' hr' hn' =>
+          have hrest : rest.getD [] ≠ [] := hsne
+          simp only [preOf] at hpre
+          rw [← hn'] at hdt hic
+          rw [hpre] at hdt hic
+          refine wfAttr_typed c na ctx st1.strtbl hc1 hl htl st.attrPage attrs' ha' r hr' _ p hout hdt ?_
+          intro h1 h2
+          rcases hic h1 h2 with h3 | h3
+          · rw [List.isEmpty_iff, List.append_eq_nil_iff] at h3
+            exact absurd h3.2 hrest
+          · exact h3
 
 
 /-! ### The attribute list -/
 
-structure AttrsRes (c : WCfg) (l : List Attr) (st st' : WSt) (as : List Attribute) : Prop where
+structure AttrsRes (c : WCfg) (na : Option (List Attr)) (l : List Attr) (st st' : WSt) (as : List Attribute) : Prop where
   out : st'.out = st.out ++ serAttrs as
   ap : ∀ ctx, st'.attrPage = (evAttrs ctx st.attrPage as).2
   tp : st'.tagPage = st.tagPage
@@ -914,10 +1120,12 @@ structure AttrsRes (c : WCfg) (l : List Attr) (st st' : WSt) (as : List Attribut
     wfAttrs ctx st.attrPage as = true
   noopq : noTypedAttr c.lang.id = true → opqsAttrs as = []
   view : ∀ ctx : Ctx, Rd c st'.strtbl ctx → (evAttrs ctx st.attrPage as).1.map attrView = l.map srcAttrView
+  wfT : ∀ ctx, Compat c st'.strtbl ctx → langOk c.lang = true → typedLangOk c.lang = true →
+    l.all (dtAttrOk c.lang) = true → l.all (iconAttrOk c.lang na) = true → wfAttrs ctx st.attrPage as = true
 
 theorem encAttrsW_spec (c : WCfg) (na : Option (List Attr)) (attrs : List AttrRow) (hattrs : c.lang.attrs = some attrs) :
     ∀ (l : List Attr) (st st' : WSt), l.all (attrOver c.lang) = true → encAttrsW c na l st = .ok st' →
-      ∃ as, as.length = l.length ∧ AttrsRes c l st st' as := by
+      ∃ as, as.length = l.length ∧ AttrsRes c na l st st' as := by
   intro l
   induction l with
   | nil =>
@@ -926,7 +1134,7 @@ theorem encAttrsW_spec (c : WCfg) (na : Option (List Attr)) (attrs : List AttrRo
     have h' : (Except.ok st : Except Err WSt) = .ok st' := h
     injection h' with h'; subst h'
     exact ⟨[], rfl, by simp [serAttrs], fun _ => rfl, rfl, TblExt.refl _ _, (by intro o ho; cases ho), fun _ _ _ _ => rfl,
-      fun _ => rfl, fun _ _ => rfl⟩
+      fun _ => rfl, fun _ _ => rfl, fun _ _ _ _ _ _ => rfl⟩
   | cons a rest ih =>
     intro st st' hall h
     simp only [List.all_cons, Bool.and_eq_true] at hall
@@ -942,7 +1150,7 @@ theorem encAttrsW_spec (c : WCfg) (na : Option (List Attr)) (attrs : List AttrRo
       obtain ⟨sa, hsa⟩ := encAttrW_spec c na a st st1 hall.1 attrs hattrs h1
       obtain ⟨as, hlen, has⟩ := ih st1 st' hall.2 h2
       refine ⟨sa :: as, by simp [hlen], ?_, ?_, ?_, hsa.tbl.trans has.tbl, ?_, ?_,
-        fun hu => by simp only [opqsAttrs, hsa.noopq hu, has.noopq hu, List.append_nil], ?_⟩
+        fun hu => by simp only [opqsAttrs, hsa.noopq hu, has.noopq hu, List.append_nil], ?_, ?_⟩
       · rw [has.out, hsa.out, serAttrs, List.append_assoc]
       · intro ctx; rw [evAttrs_cons_page, has.ap ctx, hsa.ap ctx]
       · rw [has.tp, hsa.tp]
@@ -965,6 +1173,18 @@ theorem encAttrsW_spec (c : WCfg) (na : Option (List Attr)) (attrs : List AttrRo
         show attrView (evAttr ctx st.attrPage sa).1 :: (evAttrs ctx (evAttr ctx st.attrPage sa).2 as).1.map attrView = _
         rw [hv, hrest]
         rfl
+      · intro ctx hc hl htl h1 h2
+        simp only [List.all_cons, Bool.and_eq_true] at h1 h2
+        simp only [wfAttrs, Bool.and_eq_true]
+        refine ⟨hsa.wfT ctx (hc.mono has.tbl.pre) hl htl ?_ ?_, ?_⟩
+        · intro hn
+          have := h1.1
+          simpa [dtAttrOk, hn] using this
+        · intro ha1 ha2
+          have := h2.1
+          simpa [iconAttrOk, ha1, ha2] using this
+        · rw [← hsa.ap ctx]
+          exact has.wfT ctx hc hl htl h1.2 h2.2
 
 theorem encAttrsW_noattrs (c : WCfg) (na : Option (List Attr)) (hattrs : c.lang.attrs = none) :
     ∀ (l : List Attr) (st : WSt), encAttrsW c na l st = .ok st := by
@@ -1074,10 +1294,14 @@ theorem nameOver_nulFree (c : WCfg) (name : Name) (hn : nameOver c.lang name = t
       simp only [tagSemOk, ht, List.all_eq_true, Bool.and_eq_true] at hts
       exact (hts r hn).1
 
-theorem encElementStartW_spec (c : WCfg) (name : Name) (attrs : List Attr) (hasContent : Bool) (st st' : WSt)
+theorem encElementStartW_spec' (c : WCfg) (name : Name) (attrs : List Attr) (hasContent : Bool) (st st' : WSt)
     (hl : langOk c.lang = true) (hn : nameOver c.lang name = true) (ha : attrs.all (attrOver c.lang) = true)
     (h : encElementStartW c (some attrs) name attrs hasContent st = .ok st') :
-    ∃ sw tag as, StartRes c name.cName (srcAttrsView c attrs) st st' hasContent sw tag as := by
+    ∃ sw tag as, StartRes c name.cName (srcAttrsView c attrs) st st' hasContent sw tag as ∧
+      TagLink c name st sw tag ∧
+      (∀ ctx, Compat c st'.strtbl ctx → langOk c.lang = true → typedLangOk c.lang = true →
+        attrs.all (dtAttrOk c.lang) = true → attrs.all (iconAttrOk c.lang (some attrs)) = true →
+        wfAttrs ctx st.attrPage as = true) := by
   unfold encElementStartW at h
   simp only at h
   cases ht : encTagW c name hasContent (!attrs.isEmpty && c.lang.attrs.isSome) st with
@@ -1093,7 +1317,7 @@ theorem encElementStartW_spec (c : WCfg) (name : Name) (attrs : List Attr) (hasC
     rw [ht] at h'
     have h2 : (encAttrsW c (some attrs) attrs st1 >>= fun st =>
       pure (if (!attrs.isEmpty && c.lang.attrs.isSome) = true then st.emit [0x01] else st)) = .ok st' := h'
-    obtain ⟨sw, tag, hout, htp, hap, hcur, htbl, htag⟩ := encTagW_spec c name hasContent _ st st1 hl hn ht
+    obtain ⟨sw, tag, hout, htp, hap, hcur, htbl, htag, hlink⟩ := encTagW_spec' c name hasContent _ st st1 hl hn ht
     cases hat : c.lang.attrs with
     | none =>
       rw [encAttrsW_noattrs c _ hat] at h2
@@ -1101,7 +1325,7 @@ theorem encElementStartW_spec (c : WCfg) (name : Name) (attrs : List Attr) (hasC
       have h3 : (Except.ok st1 : Except Err WSt) = .ok st' := h2
       injection h3 with h3; subst h3
       refine ⟨sw, tag, [], ⟨?_, htp, fun _ => hap, htbl, htag, (by intro o ho; cases ho), fun _ _ _ _ => rfl, fun _ => rfl,
-        fun _ _ => by simp [srcAttrsView, hat, evAttrs_nil]⟩⟩
+        fun _ _ => by simp [srcAttrsView, hat, evAttrs_nil]⟩, hlink, fun _ _ _ _ _ _ => rfl⟩
       simpa using hout
     | some atbl =>
       cases ha2 : encAttrsW c (some attrs) attrs st1 with
@@ -1115,7 +1339,10 @@ theorem encElementStartW_spec (c : WCfg) (name : Name) (attrs : List Attr) (hasC
         have hemp : as.isEmpty = attrs.isEmpty := by
           cases as <;> cases attrs <;> simp_all
         simp only [hat, Option.isSome_some, Bool.and_true] at h3 hout
-        refine ⟨sw, tag, as, ⟨?_, ?_, ?_, ?_, ?_, ?_, ?_, has.noopq, ?_⟩⟩
+        refine ⟨sw, tag, as, ⟨?_, ?_, ?_, ?_, ?_, ?_, ?_, has.noopq, ?_⟩, hlink, ?_⟩
+        rotate_right
+        · have : st'.strtbl = st2.strtbl := by rw [← h3]; split <;> rfl
+          rw [this, ← hap]; exact has.wfT
         · rw [← h3, hemp]
           cases hae : attrs.isEmpty with
           | true =>
@@ -1148,5 +1375,12 @@ theorem encElementStartW_spec (c : WCfg) (name : Name) (attrs : List Attr) (hasC
           rw [hap] at this
           simp only [srcAttrsView, hat, Option.isSome_some, ↓reduceIte]
           exact this
+
+theorem encElementStartW_spec (c : WCfg) (name : Name) (attrs : List Attr) (hasContent : Bool) (st st' : WSt)
+    (hl : langOk c.lang = true) (hn : nameOver c.lang name = true) (ha : attrs.all (attrOver c.lang) = true)
+    (h : encElementStartW c (some attrs) name attrs hasContent st = .ok st') :
+    ∃ sw tag as, StartRes c name.cName (srcAttrsView c attrs) st st' hasContent sw tag as := by
+  obtain ⟨sw, tag, as, hs, _⟩ := encElementStartW_spec' c name attrs hasContent st st' hl hn ha h
+  exact ⟨sw, tag, as, hs⟩
 
 end Wbxml.Lemmas.EncW
